@@ -55,13 +55,15 @@ VARIABLES
     rdig,      \* receiver: sequence of blocks it has hashed
     result,    \* [Roles -> {"run", "ok", "fail", "stopped", "refused"}]
     fileOK,    \* [Roles -> SUBSET 1..NF] files the role considers transferred and verified
-    stopped,   \* [Roles -> BOOLEAN] stop requested and not yet noticed
+    stopped,   \* [Roles -> {"no", "keep", "del"}] stop requested (and its kind) and not yet noticed
     faults,    \* faults injected so far
     told       \* [Roles -> BOOLEAN] role has written a fail line (observable)
 
 vars == <<cf, chan, dead, pc, fi, rem, outst, sdig, got, ackq, fin, rsize, dst, made, rdig, result, fileOK,
           stopped, faults, told>>
 
+Stp(r) == stopped[r] # "no"
+WasStopped(r) == result[r] \in {"stopped", "stoppeddel"}
 Send(r, m) == IF dead[r] THEN chan ELSE [chan EXCEPT ![r] = Append(@, m)]   \* deliver to r
 HasMsg(r) == chan[r] # <<>>
 HeadMsg(r) == chan[r][1]
@@ -76,19 +78,20 @@ Init ==
     /\ got = Empty /\ ackq = <<>> /\ fin = FALSE /\ rsize = 0
     /\ dst = [f \in 1..NF |-> Empty] /\ made = {} /\ rdig = Empty
     /\ result = [r \in Roles |-> "run"] /\ fileOK = [r \in Roles |-> {}]
-    /\ stopped = [r \in Roles |-> FALSE] /\ faults = 0 /\ told = [r \in Roles |-> FALSE]
+    /\ stopped = [r \in Roles |-> "no"] /\ faults = 0 /\ told = [r \in Roles |-> FALSE]
 
 -----------------------------------------------------------------------------
 (* Error path: clientError / serverError.  The role drains its input (cleanInput), then      *)
 (* writes a fail line unless the error was a remote fail/exit, and is finished.              *)
-Fail(r, how, remote) ==
+FailA(r, how, remote, a) ==
     /\ result' = [result EXCEPT ![r] = how]
     /\ pc' = [pc EXCEPT ![r] = "done"]
     /\ told' = [told EXCEPT ![r] = ~remote]
     /\ chan' = IF remote \/ dead[Peer(r)]
                THEN [chan EXCEPT ![r] = <<>>]
-               ELSE [chan EXCEPT ![r] = <<>>, ![Peer(r)] = Append(@, Msg("FAIL", 0, 0, TRUE))]
-    /\ stopped' = [stopped EXCEPT ![r] = FALSE]
+               ELSE [chan EXCEPT ![r] = <<>>, ![Peer(r)] = Append(@, Msg("FAIL", a, 0, TRUE))]
+    /\ stopped' = [stopped EXCEPT ![r] = "no"]
+Fail(r, how, remote) == FailA(r, how, remote, 0)
 
 Keep(r) == /\ result' = result /\ told' = told /\ stopped' = stopped /\ cf' = cf
 
@@ -114,16 +117,21 @@ Expect(r) ==
 
 UnchangedData == UNCHANGED <<made, cf, rem, outst, sdig, got, ackq, fin, rsize, dst, rdig, fileOK, faults, dead, fi>>
 
+(* deleteCreatedFiles: everything this transfer created at the destination is removed *)
+DeleteCreated == /\ made' = {} /\ dst' = [f \in 1..NF |-> Empty]
+                 /\ UNCHANGED <<cf, rem, outst, sdig, got, ackq, fin, rsize, rdig, fileOK, faults, dead, fi>>
+
+(* a fail line "Stopped and deleted" (a = 1) makes a receiving server delete what it created *)
 BadMessage(r) ==
     /\ Receiving(r) /\ HasMsg(r) /\ HeadMsg(r).t # Expect(r)
     /\ Fail(r, "fail", HeadMsg(r).t \in {"FAIL", "EXIT"})
-    /\ UnchangedData
+    /\ IF HeadMsg(r).t = "FAIL" /\ HeadMsg(r).a = 1 /\ r = "V" /\ r = Rcv THEN DeleteCreated ELSE UnchangedData
 
 (* A stop request is noticed at the next checkStop (every send and receive starts with one). *)
 NoticeStop(r) ==
-    /\ Running(r) /\ stopped[r]
-    /\ Fail(r, "stopped", FALSE)
-    /\ UnchangedData
+    /\ Running(r) /\ Stp(r)
+    /\ FailA(r, IF stopped[r] = "del" THEN "stoppeddel" ELSE "stopped", FALSE, IF stopped[r] = "del" THEN 1 ELSE 0)
+    /\ IF stopped[r] = "del" /\ r = Rcv THEN DeleteCreated ELSE UnchangedData
 
 (* Receive time-out: only when nothing is in flight to r and the peer cannot produce         *)
 (* anything (it is finished or itself waiting for r) -- i.e. never spuriously.               *)
@@ -133,7 +141,7 @@ LocalWork(p) ==       \* the role can do something that does not need a message
     \/ (pc[p] = "s_data" /\ (Proto < 2 \/ Len(outst) < Window))
     \/ (pc[p] = "r_data" /\ (got.len > 0 \/ ackq # <<>> \/ fin))
     \/ (pc[p] = "r_data1" /\ dst[fi[p]].len >= rsize)
-CanProgress(p) == Running(p) /\ (stopped[p] \/ HasMsg(p) \/ LocalWork(p))
+CanProgress(p) == Running(p) /\ (Stp(p) \/ HasMsg(p) \/ LocalWork(p))
 Timeout(r) ==
     /\ Receiving(r) /\ ~CanProgress(r) /\ ~CanProgress(Peer(r))
     /\ Fail(r, "fail", FALSE)
@@ -142,14 +150,14 @@ Timeout(r) ==
 -----------------------------------------------------------------------------
 (* Handshake.                                                                                 *)
 CSendAct ==
-    /\ Running("C") /\ pc["C"] = "c_act" /\ ~stopped["C"]
+    /\ Running("C") /\ pc["C"] = "c_act" /\ ~Stp("C")
     /\ chan' = Send("V", Msg("ACT", IF Confirm THEN 1 ELSE 0, 0, TRUE))
     /\ IF Confirm THEN pc' = [pc EXCEPT !["C"] = "c_cfg"] /\ result' = result
        ELSE pc' = [pc EXCEPT !["C"] = "done"] /\ result' = [result EXCEPT !["C"] = "refused"]
     /\ UNCHANGED <<told, stopped>> /\ UnchangedData
 
 VRecvAct ==
-    /\ Running("V") /\ pc["V"] = "v_act" /\ ~stopped["V"] /\ RecvOK("V", "ACT")
+    /\ Running("V") /\ pc["V"] = "v_act" /\ ~Stp("V") /\ RecvOK("V", "ACT")
     /\ IF HeadMsg("V").a = 1
        THEN /\ chan' = [Pop(chan, "V") EXCEPT !["C"] = IF dead["C"] THEN @ ELSE Append(@, Msg("CFG", 0, 0, TRUE))]
             /\ pc' = [pc EXCEPT !["V"] = IF Snd = "V" THEN "s_num" ELSE "r_num"]
@@ -159,7 +167,7 @@ VRecvAct ==
     /\ UNCHANGED <<told, stopped>> /\ UnchangedData
 
 CRecvCfg ==
-    /\ Running("C") /\ pc["C"] = "c_cfg" /\ ~stopped["C"] /\ RecvOK("C", "CFG")
+    /\ Running("C") /\ pc["C"] = "c_cfg" /\ ~Stp("C") /\ RecvOK("C", "CFG")
     /\ chan' = Pop(chan, "C")
     /\ pc' = [pc EXCEPT !["C"] = IF Snd = "C" THEN "s_num" ELSE "r_num"]
     /\ Keep("C") /\ UnchangedData
@@ -174,12 +182,12 @@ NextFileS(f) ==   \* pc after finishing file f on the sender
     IF f < NF THEN "s_name" ELSE (IF S = "C" THEN "c_exit" ELSE "v_exit")
 
 SSendNum ==
-    /\ Running(S) /\ pc[S] = "s_num" /\ ~stopped[S]
+    /\ Running(S) /\ pc[S] = "s_num" /\ ~Stp(S)
     /\ chan' = Send(R, Msg("NUM", NF, 0, TRUE)) /\ Go(S, "s_num_ack")
     /\ Keep(S) /\ UnchangedData
 
 SRecvNumAck ==
-    /\ Running(S) /\ pc[S] = "s_num_ack" /\ ~stopped[S] /\ RecvOK(S, "SUCC")
+    /\ Running(S) /\ pc[S] = "s_num_ack" /\ ~Stp(S) /\ RecvOK(S, "SUCC")
     /\ IF HeadMsg(S).a = NF
        THEN /\ chan' = Pop(chan, S) /\ Keep(S)
             /\ Go(S, IF NF = 0 THEN (IF S = "C" THEN "c_exit" ELSE "v_exit") ELSE "s_name")
@@ -187,12 +195,12 @@ SRecvNumAck ==
        ELSE Fail(S, "fail", FALSE) /\ UnchangedData
 
 SSendName ==
-    /\ Running(S) /\ pc[S] = "s_name" /\ ~stopped[S]
+    /\ Running(S) /\ pc[S] = "s_name" /\ ~Stp(S)
     /\ chan' = Send(R, Msg("NAME", fi[S], 0, TRUE)) /\ Go(S, "s_name_ack")
     /\ Keep(S) /\ UnchangedData
 
 SRecvNameAck ==
-    /\ Running(S) /\ pc[S] = "s_name_ack" /\ ~stopped[S] /\ RecvOK(S, "SUCC")
+    /\ Running(S) /\ pc[S] = "s_name_ack" /\ ~Stp(S) /\ RecvOK(S, "SUCC")
     /\ LET f == fi[S] IN
        IF HeadMsg(S).a # f THEN Fail(S, "fail", FALSE) /\ UnchangedData   \* undecodable / wrong name echo
        ELSE /\ chan' = Pop(chan, S) /\ Keep(S)
@@ -205,12 +213,12 @@ SRecvNameAck ==
                     /\ UNCHANGED <<made, rem, outst, sdig, got, ackq, fin, rsize, dst, rdig, fileOK, faults, dead, fi>>
 
 SSendSize ==
-    /\ Running(S) /\ pc[S] = "s_size" /\ ~stopped[S]
+    /\ Running(S) /\ pc[S] = "s_size" /\ ~Stp(S)
     /\ chan' = Send(R, Msg("SIZE", Files[fi[S]].size, 0, TRUE)) /\ Go(S, "s_size_ack")
     /\ Keep(S) /\ UnchangedData
 
 SRecvSizeAck ==
-    /\ Running(S) /\ pc[S] = "s_size_ack" /\ ~stopped[S] /\ RecvOK(S, "SUCC")
+    /\ Running(S) /\ pc[S] = "s_size_ack" /\ ~Stp(S) /\ RecvOK(S, "SUCC")
     /\ LET f == fi[S] IN
        IF HeadMsg(S).a # Files[f].size THEN Fail(S, "fail", FALSE) /\ UnchangedData
        ELSE /\ chan' = Pop(chan, S) /\ Keep(S)
@@ -219,25 +227,25 @@ SRecvSizeAck ==
             /\ UNCHANGED <<made, got, ackq, fin, rsize, dst, rdig, fileOK, faults, dead, fi>>
 
 SSendComp ==
-    /\ Running(S) /\ pc[S] = "s_comp" /\ ~stopped[S]
+    /\ Running(S) /\ pc[S] = "s_comp" /\ ~Stp(S)
     /\ chan' = Send(R, Msg("COMP", 1, 0, TRUE)) /\ Go(S, "s_data")
     /\ Keep(S) /\ UnchangedData
 
 (* protocol 1 (sendFileData): one DATA of c units, then its SUCC(c), until step = size;      *)
 (* no finish flag                                                                            *)
 SDataDone1 ==
-    /\ Proto < 2 /\ Running(S) /\ pc[S] = "s_data" /\ ~stopped[S] /\ rem = 0
+    /\ Proto < 2 /\ Running(S) /\ pc[S] = "s_data" /\ ~Stp(S) /\ rem = 0
     /\ Go(S, "s_md5") /\ chan' = chan /\ Keep(S) /\ UnchangedData
 
 SSendData1(c) ==
-    /\ Proto < 2 /\ Running(S) /\ pc[S] = "s_data" /\ ~stopped[S] /\ c \in 1..rem
+    /\ Proto < 2 /\ Running(S) /\ pc[S] = "s_data" /\ ~Stp(S) /\ c \in 1..rem
     /\ chan' = Send(R, Msg("DATA", c, c, TRUE))
     /\ rem' = rem - c /\ outst' = <<c>> /\ sdig' = Plus(sdig, c, TRUE)
     /\ Go(S, "s_ack1") /\ Keep(S)
     /\ UNCHANGED <<made, got, ackq, fin, rsize, dst, rdig, fileOK, faults, dead, fi>>
 
 SRecvAck1 ==
-    /\ Running(S) /\ pc[S] = "s_ack1" /\ ~stopped[S] /\ RecvOK(S, "SUCC")
+    /\ Running(S) /\ pc[S] = "s_ack1" /\ ~Stp(S) /\ RecvOK(S, "SUCC")
     /\ IF HeadMsg(S).a # outst[1] THEN Fail(S, "fail", FALSE) /\ UnchangedData
        ELSE /\ chan' = Pop(chan, S) /\ outst' = <<>> /\ Go(S, "s_data") /\ Keep(S)
             /\ UNCHANGED <<made, rem, sdig, got, ackq, fin, rsize, dst, rdig, fileOK, faults, dead, fi>>
@@ -247,7 +255,7 @@ SRecvAck1 ==
 (* unit an empty DATA is the finish flag.  pc s_data = still sending, s_acks = everything     *)
 (* sent and acks outstanding, s_final = waiting for SUCC(step = size).                        *)
 SSendData2(a, c) ==
-    /\ Proto >= 2 /\ Running(S) /\ pc[S] = "s_data" /\ ~stopped[S]
+    /\ Proto >= 2 /\ Running(S) /\ pc[S] = "s_data" /\ ~Stp(S)
     /\ Len(outst) < Window /\ a >= 1 /\ c \in 0..rem
     /\ chan' = Send(R, Msg("DATA", a, c, TRUE))
     /\ rem' = rem - c /\ outst' = Append(outst, a) /\ sdig' = Plus(sdig, c, TRUE)
@@ -255,7 +263,7 @@ SSendData2(a, c) ==
     /\ UNCHANGED <<made, got, ackq, fin, rsize, dst, rdig, fileOK, faults, dead, fi>>
 
 SSendFinish ==
-    /\ Proto >= 2 /\ Running(S) /\ pc[S] = "s_data" /\ ~stopped[S]
+    /\ Proto >= 2 /\ Running(S) /\ pc[S] = "s_data" /\ ~Stp(S)
     /\ Len(outst) < Window /\ rem = 0
     /\ chan' = Send(R, Msg("DATA", 0, 0, TRUE)) /\ outst' = Append(outst, 0)
     /\ Go(S, "s_acks") /\ Keep(S)
@@ -263,7 +271,7 @@ SSendFinish ==
 
 (* pipelineRecvAck: SUCC(len/step) must echo the length of the oldest unacknowledged DATA    *)
 SRecvAck2 ==
-    /\ Proto >= 2 /\ Running(S) /\ pc[S] \in {"s_data", "s_acks"} /\ ~stopped[S] /\ outst # <<>>
+    /\ Proto >= 2 /\ Running(S) /\ pc[S] \in {"s_data", "s_acks"} /\ ~Stp(S) /\ outst # <<>>
     /\ RecvOK(S, "SUCC")
     /\ IF HeadMsg(S).a # outst[1] \/ HeadMsg(S).b < 0 THEN Fail(S, "fail", FALSE) /\ UnchangedData
        ELSE /\ chan' = Pop(chan, S) /\ outst' = Tail(outst) /\ Keep(S)
@@ -272,7 +280,7 @@ SRecvAck2 ==
 
 (* pipelineRecvFinalAck: SUCC(step) until step = size; step > size is an error                *)
 SRecvFinal ==
-    /\ Running(S) /\ pc[S] = "s_final" /\ ~stopped[S] /\ RecvOK(S, "SUCC")
+    /\ Running(S) /\ pc[S] = "s_final" /\ ~Stp(S) /\ RecvOK(S, "SUCC")
     /\ LET sz == Files[fi[S]].size  st == HeadMsg(S).b IN
        IF st > sz \/ HeadMsg(S).a # -1 THEN Fail(S, "fail", FALSE) /\ UnchangedData
        ELSE /\ chan' = Pop(chan, S) /\ Keep(S)
@@ -280,12 +288,12 @@ SRecvFinal ==
             /\ UnchangedData
 
 SSendMD5 ==
-    /\ Running(S) /\ pc[S] = "s_md5" /\ ~stopped[S]
+    /\ Running(S) /\ pc[S] = "s_md5" /\ ~Stp(S)
     /\ chan' = Send(R, Msg("MD5", sdig.len, 0, sdig.ok)) /\ Go(S, "s_md5_ack")
     /\ Keep(S) /\ UnchangedData
 
 SRecvMD5Ack ==
-    /\ Running(S) /\ pc[S] = "s_md5_ack" /\ ~stopped[S] /\ RecvOK(S, "SUCC")
+    /\ Running(S) /\ pc[S] = "s_md5_ack" /\ ~Stp(S) /\ RecvOK(S, "SUCC")
     /\ LET f == fi[S] IN
        IF Cont(HeadMsg(S).a, HeadMsg(S).ok) # sdig THEN Fail(S, "fail", FALSE) /\ UnchangedData
        ELSE /\ chan' = Pop(chan, S) /\ Keep(S)
@@ -299,7 +307,7 @@ SRecvMD5Ack ==
 NextFileR(f) == IF f < NF THEN "r_name" ELSE (IF R = "C" THEN "c_exit" ELSE "v_exit")
 
 RRecvNum ==
-    /\ Running(R) /\ pc[R] = "r_num" /\ ~stopped[R] /\ RecvOK(R, "NUM")
+    /\ Running(R) /\ pc[R] = "r_num" /\ ~Stp(R) /\ RecvOK(R, "NUM")
     /\ LET n == HeadMsg(R).a IN
        /\ chan' = [Pop(chan, R) EXCEPT ![S] = IF dead[S] THEN @ ELSE Append(@, Msg("SUCC", n, 0, TRUE))]
        /\ Go(R, IF n = 0 THEN (IF R = "C" THEN "c_exit" ELSE "v_exit") ELSE "r_name")
@@ -309,7 +317,7 @@ RRecvNum ==
 
 (* recvFileName: create the file (truncating), answer with the local name *)
 RRecvName ==
-    /\ Running(R) /\ pc[R] = "r_name" /\ ~stopped[R] /\ RecvOK(R, "NAME")
+    /\ Running(R) /\ pc[R] = "r_name" /\ ~Stp(R) /\ RecvOK(R, "NAME")
     /\ LET f == HeadMsg(R).a IN
        IF f \notin 1..NF THEN Fail(R, "fail", FALSE) /\ UnchangedData      \* undecodable name
        ELSE /\ chan' = [Pop(chan, R) EXCEPT ![S] = IF dead[S] THEN @ ELSE Append(@, Msg("SUCC", f, 0, TRUE))]
@@ -322,7 +330,7 @@ RRecvName ==
             /\ UNCHANGED <<rem, outst, sdig, got, ackq, fin, rsize, rdig, faults, dead>>
 
 RRecvSize ==
-    /\ Running(R) /\ pc[R] = "r_size" /\ ~stopped[R] /\ RecvOK(R, "SIZE")
+    /\ Running(R) /\ pc[R] = "r_size" /\ ~Stp(R) /\ RecvOK(R, "SIZE")
     /\ LET n == HeadMsg(R).a IN
        /\ chan' = [Pop(chan, R) EXCEPT ![S] = IF dead[S] THEN @ ELSE Append(@, Msg("SUCC", n, 0, TRUE))]
        /\ rsize' = n /\ got' = Empty /\ ackq' = <<>> /\ fin' = FALSE /\ rdig' = Empty
@@ -330,7 +338,7 @@ RRecvSize ==
     /\ Keep(R) /\ UNCHANGED <<made, rem, outst, sdig, dst, fileOK, faults, dead, fi>>
 
 RRecvComp ==
-    /\ Running(R) /\ pc[R] = "r_comp" /\ ~stopped[R] /\ RecvOK(R, "COMP")
+    /\ Running(R) /\ pc[R] = "r_comp" /\ ~Stp(R) /\ RecvOK(R, "COMP")
     /\ chan' = Pop(chan, R) /\ Go(R, "r_data")
     /\ Keep(R) /\ UnchangedData
 
@@ -338,11 +346,11 @@ Saved == dst[fi[R]].len
 
 (* protocol 1 (recvFileData): loop while step < size: read DATA, write it, SUCC(len)          *)
 RDataDone1 ==
-    /\ Running(R) /\ pc[R] = "r_data1" /\ ~stopped[R] /\ Saved >= rsize
+    /\ Running(R) /\ pc[R] = "r_data1" /\ ~Stp(R) /\ Saved >= rsize
     /\ Go(R, "r_md5") /\ chan' = chan /\ Keep(R) /\ UnchangedData
 
 RRecvData1 ==
-    /\ Running(R) /\ pc[R] = "r_data1" /\ ~stopped[R] /\ Saved < rsize /\ RecvOK(R, "DATA")
+    /\ Running(R) /\ pc[R] = "r_data1" /\ ~Stp(R) /\ Saved < rsize /\ RecvOK(R, "DATA")
     /\ LET m == HeadMsg(R) f == fi[R] IN
        /\ chan' = [Pop(chan, R) EXCEPT ![S] = IF dead[S] THEN @ ELSE Append(@, Msg("SUCC", m.b, 0, TRUE))]
        /\ dst' = [dst EXCEPT ![f] = Plus(@, m.b, m.ok)] /\ rdig' = Plus(rdig, m.b, m.ok)
@@ -352,7 +360,7 @@ RRecvData1 ==
 (* protocol >= 2: pipelineRecvData takes DATA messages (an empty one is the finish flag);    *)
 (* got = units received but not yet decoded and written                                       *)
 RRecvData2 ==
-    /\ Running(R) /\ pc[R] = "r_data" /\ ~stopped[R] /\ ~fin /\ RecvOK(R, "DATA")
+    /\ Running(R) /\ pc[R] = "r_data" /\ ~Stp(R) /\ ~fin /\ RecvOK(R, "DATA")
     /\ LET m == HeadMsg(R) IN
        /\ chan' = Pop(chan, R)
        /\ got' = Plus(got, m.b, m.ok) /\ ackq' = Append(ackq, m.a)
@@ -371,7 +379,7 @@ RSave(n) ==
 
 (* pipelineSendAck, first loop: SUCC(len/savedSteps) for each received DATA in order          *)
 RSendAck ==
-    /\ Running(R) /\ pc[R] = "r_data" /\ ~stopped[R] /\ ackq # <<>>
+    /\ Running(R) /\ pc[R] = "r_data" /\ ~Stp(R) /\ ackq # <<>>
     /\ chan' = Send(S, Msg("SUCC", ackq[1], Saved, TRUE))
     /\ ackq' = Tail(ackq)
     /\ UNCHANGED pc /\ Keep(R)
@@ -381,7 +389,7 @@ RSendAck ==
 (* the announced size; saved > size, or everything decoded and saved # size, is an error     *)
 (* ("SaveFile expected step ...").  The model sends it once everything received is written.  *)
 RSendFinal ==
-    /\ Running(R) /\ pc[R] = "r_data" /\ ~stopped[R] /\ fin /\ ackq = <<>> /\ got.len = 0
+    /\ Running(R) /\ pc[R] = "r_data" /\ ~Stp(R) /\ fin /\ ackq = <<>> /\ got.len = 0
     /\ IF Saved # rsize
        THEN Fail(R, "fail", FALSE) /\ UnchangedData
        ELSE /\ chan' = Send(S, Msg("SUCC", -1, Saved, TRUE))
@@ -391,13 +399,13 @@ RSendFinal ==
 (* an intermediate final ack (step < size) while data is still being written: tolerated by   *)
 (* the sender; used by the trace spec, not part of Next (it would only add stuttering acks)  *)
 RSendFinalEarly ==
-    /\ Running(R) /\ pc[R] = "r_data" /\ ~stopped[R] /\ fin /\ ackq = <<>> /\ Saved < rsize
+    /\ Running(R) /\ pc[R] = "r_data" /\ ~Stp(R) /\ fin /\ ackq = <<>> /\ Saved < rsize
     /\ chan' = Send(S, Msg("SUCC", -1, Saved, TRUE))
     /\ UNCHANGED pc /\ Keep(R) /\ UnchangedData
 
 (* recvFileMD5: compare digests; equal => SUCC(digest), file verified                         *)
 RRecvMD5 ==
-    /\ Running(R) /\ pc[R] = "r_md5" /\ ~stopped[R] /\ RecvOK(R, "MD5")
+    /\ Running(R) /\ pc[R] = "r_md5" /\ ~Stp(R) /\ RecvOK(R, "MD5")
     /\ LET f == fi[R] m == HeadMsg(R) IN
        IF Cont(m.a, m.ok) # rdig THEN Fail(R, "fail", FALSE) /\ UnchangedData
        ELSE /\ chan' = [Pop(chan, R) EXCEPT ![S] = IF dead[S] THEN @ ELSE Append(@, Msg("SUCC", rdig.len, 0, rdig.ok))]
@@ -408,13 +416,13 @@ RRecvMD5 ==
 -----
 (* Exit exchange.                                                                             *)
 CExit ==
-    /\ Running("C") /\ pc["C"] = "c_exit" /\ ~stopped["C"]
+    /\ Running("C") /\ pc["C"] = "c_exit" /\ ~Stp("C")
     /\ chan' = Send("V", Msg("EXIT", 0, 0, TRUE))
     /\ pc' = [pc EXCEPT !["C"] = "done"] /\ result' = [result EXCEPT !["C"] = "ok"]
     /\ UNCHANGED <<told, stopped>> /\ UnchangedData
 
 VExit ==
-    /\ Running("V") /\ pc["V"] = "v_exit" /\ ~stopped["V"] /\ RecvOK("V", "EXIT")
+    /\ Running("V") /\ pc["V"] = "v_exit" /\ ~Stp("V") /\ RecvOK("V", "EXIT")
     /\ chan' = Pop(chan, "V")
     /\ pc' = [pc EXCEPT !["V"] = "done"] /\ result' = [result EXCEPT !["V"] = "ok"]
     /\ UNCHANGED <<told, stopped>> /\ UnchangedData
@@ -427,9 +435,11 @@ Drain(r) ==
 
 -----------------------------------------------------------------------------
 (* Environment.                                                                               *)
-UserStop(r) ==
-    /\ r \in StopRoles /\ Running(r) /\ ~stopped[r] /\ pc[r] \notin {"c_act"}
-    /\ stopped' = [stopped EXCEPT ![r] = TRUE]
+UserStop(r, kind) ==
+    /\ r \in StopRoles /\ Running(r) /\ pc[r] \notin {"c_act"}
+    /\ \A q \in Roles : ~Stp(q) /\ ~WasStopped(q)                 \* one stop per transfer
+    /\ (kind = "del" => r = "C")                                   \* SIGINT/SIGTERM on the server: keep only
+    /\ stopped' = [stopped EXCEPT ![r] = kind]
     /\ UNCHANGED <<chan, pc, result, told>> /\ UnchangedData
 
 Damage(m) ==   \* a message that no longer carries what was sent
@@ -457,7 +467,7 @@ RoleStep ==
     \/ CExit \/ VExit
     \/ \E r \in Roles : BadMessage(r) \/ NoticeStop(r) \/ Timeout(r) \/ Drain(r)
 
-Next == RoleStep \/ (\E r \in Roles : UserStop(r) \/ Fault(r))
+Next == RoleStep \/ (\E r \in Roles : Fault(r) \/ \E k \in {"keep", "del"} : UserStop(r, k))
 
 Spec == Init /\ [][Next]_vars /\ WF_vars(RoleStep)
 
@@ -475,7 +485,8 @@ Fidelity == AnyOK => \A f \in 1..NF : DstSame(f)
 (* C02/C10: a role that counts a file as done does so only when the destination has exactly   *)
 (* the source's blocks (the receiver at the moment it verified the digest, the sender once    *)
 (* the receiver's digest echo arrived)                                                        *)
-NoSilentCorruption == \A r \in Roles : \A f \in fileOK[r] : DstSame(f)
+NoSilentCorruption ==
+    \A r \in Roles : \A f \in fileOK[r] : DstSame(f) \/ (\E q \in Roles : result[q] = "stoppeddel")
 
 (* C10: a role reports success only when every file was completed and verified               *)
 NoFalseSuccess == \A r \in Roles : result[r] = "ok" => fileOK[r] = 1..NF
@@ -486,8 +497,13 @@ AckWithinSaved ==
 
 (* C01 (second half): without faults, stops and refusal both sides succeed                    *)
 CleanRunSucceeds ==
-    (Finished /\ faults = 0 /\ Confirm /\ \A r \in Roles : result[r] # "stopped")
+    (Finished /\ faults = 0 /\ Confirm /\ \A r \in Roles : ~WasStopped(r))
         => \A r \in Roles : result[r] = "ok"
+
+(* C10: once a stop-and-delete has been noticed and everybody is finished, nothing this       *)
+(* transfer created is left -- unless the receiving side had already completed successfully   *)
+DeleteExact ==
+    (Finished /\ result[Rcv] # "ok" /\ (\E r \in Roles : result[r] = "stoppeddel")) => made = {}
 
 (* C11: every behaviour ends with both roles finished (no hang)                               *)
 Termination == <>[]Finished
@@ -497,6 +513,6 @@ PeerTold == \A r \in Roles : (result[r] \in {"fail", "stopped"} /\ ~dead[Peer(r)
 
 TypeOK ==
     /\ rem \in 0..8 /\ Len(outst) <= Window
-    /\ \A r \in Roles : result[r] \in {"run", "ok", "fail", "stopped", "refused"}
+    /\ \A r \in Roles : result[r] \in {"run", "ok", "fail", "stopped", "stoppeddel", "refused"}
 
 =============================================================================
